@@ -66,7 +66,7 @@ def source_items(progs, vecs, maxn=4, adaptive=True):
             pb = ic10load.load(code)
             # effect budget: at least one full round of the main loop (every effect instruction of the text once, calls repeat some)
             neff = sum(1 for i in pb if i["op"] in ("s", "ss", "sb", "sbn", "sbs", "yield", "sleep", "putd", "clr", "clrd") or (i["op"] == "put" and i["a"] and i["a"][0] != ["d", "db"]))
-            maxn_case = max(maxn, min(12, neff + 2)) if adaptive else maxn
+            maxn_case = max(maxn, min(12, 2 * neff + 2)) if adaptive else maxn
             pre, _post = CL.h1_streams(r)
             shp = set(sh)
             if pre is not None and any(fn and fi["emitted"] and not fi["inlined"] and not fi["is_constexpr"] for fn, fi in pre["functions"].items()):
@@ -80,19 +80,25 @@ def source_items(progs, vecs, maxn=4, adaptive=True):
 def run_source_check(pid, tier, t0, items, rule, extra_cov, level="translation_validation", violation_filter=None):
     rep = Reporter(pid)
     cases = [it["case"] for it in items]
-    mut = None
+    # binding self-test: corrupted artefacts (first write in the text gets another value) must be rejected; the first
+    # write in the text may lie beyond a case's effect budget, so a few cases are corrupted and one rejection is demanded
+    muts, seen_names = [], set()
     for it in items:
+        if it["name"] in seen_names:
+            continue
         m = CL.mutant_of({"pb": it["case"]["pb"]})
         if m is not None:
-            mut = dict(it["case"], pb=m["pb"])
+            seen_names.add(it["name"])
+            muts.append(dict(it["case"], pb=m["pb"]))
+        if len(muts) >= 6:
             break
-    if mut is None:
+    if not muts:
         raise MachineryError("no case with an externally visible write: nothing to bind to")
     to = 1500 if tier == "thorough" else 400
-    verdicts, st = equiv.run_cases(pid, cases + [mut], batches=8, workers=2, timeout=to,
+    verdicts, st = equiv.run_cases(pid, cases + muts, batches=8, workers=2, timeout=to,
                                    single_timeout=150 if tier == "thorough" else 60, spec="Equiv")
-    if not any(equiv.is_violation(v) for v in verdicts[len(cases)]):
-        raise MachineryError("binding self-test failed: a corrupted artefact was accepted (%s)" % verdicts[len(cases)])
+    if not any(equiv.is_violation(v) for vs in verdicts[len(cases):] for v in vs):
+        raise MachineryError("binding self-test failed: corrupted artefacts were accepted (%s)" % verdicts[len(cases):])
     nviol, inconclusive, complete = 0, {}, 0
     for k, it in enumerate(items):
         vs = verdicts[k]
